@@ -52,6 +52,7 @@ ASSUMPTIONS = [
 ]
 
 ASSET = "tests/assets/minimal_instance.pkg.slp"
+INF = float("inf")
 EPS = 2.0**-52
 
 # ------------------------------------------------------------------------------------
@@ -703,9 +704,13 @@ def evaluate_helpers(case):
         k = min(n, m)
         res.cls(f"helpers:assign:shape={'empty' if k == 0 else 'square' if n == m else 'wide' if n < m else 'tall'}")
         best = brute_assignment(cost) if k else 0.0
-        tol = 1e-9 * max(1.0, float(np.abs(C).sum()))  # sums of <= 5 entries in a different order
+        tol = 1e-9 * max(1.0, float(np.abs(C[np.isfinite(C)]).sum()))  # sums of <= 5 (finite) entries in a different order
         res.n_evals = 2
         for name, fn in (("hungarian", U.hungarian_matching), ("greedy", U.greedy_matching)):
+            if name == "hungarian" and not math.isfinite(best):
+                # no assignment of finite cost exists: scipy's documented ValueError ("cost matrix is infeasible")
+                res.cls("helpers:assign:infeasible(hungarian-not-judged)")
+                continue
             out = runner.guarded(res, name, fn, C.copy())
             if out is runner.FAILED:
                 continue
@@ -810,7 +815,7 @@ def helpers_strategy():
 
     @st.composite
     def assign(draw):
-        kind = draw(st.sampled_from(["ties", "float", "negsim", "distance", "anti-diagonal"]))
+        kind = draw(st.sampled_from(["ties", "float", "negsim", "distance", "anti-diagonal", "with-inf", "with-inf"]))
         n = draw(st.sampled_from([0, 1, 2, 2, 3, 3, 4, 4, 5, 5]))
         m = draw(st.sampled_from([0, 1, 2, 2, 3, 3, 4, 4, 5, 5]))
         if kind == "ties":
@@ -823,6 +828,26 @@ def helpers_strategy():
             el = st.floats(0.0, 500.0, allow_nan=False)
         flat = draw(st.lists(el, min_size=n * m, max_size=n * m))
         cost = [flat[i * m : (i + 1) * m] for i in range(n)]
+        if kind == "with-inf" and n * m:
+            # +inf marks an unusable pair: what Tracker.scores_to_cost_matrix produces for a NaN score
+            pat = draw(st.sampled_from(["cells", "column", "row", "all-but-one-row"]))
+            if pat == "cells":
+                for i in range(n):
+                    for j in range(m):
+                        if draw(st.integers(0, 2)) == 0:
+                            cost[i][j] = INF
+            elif pat == "column":
+                j = draw(st.integers(0, m - 1))
+                for i in range(n):
+                    cost[i][j] = INF
+            elif pat == "row":
+                i = draw(st.integers(0, n - 1))
+                cost[i] = [INF] * m
+            else:
+                keep = draw(st.integers(0, n - 1))
+                for i in range(n):
+                    if i != keep:
+                        cost[i] = [INF] * m
         if kind == "anti-diagonal":  # greedy's first pick ruins the optimum
             for i in range(min(n, m)):
                 cost[i][min(n, m) - 1 - i] = float(draw(st.integers(0, 2)))
